@@ -7,6 +7,7 @@ import "net"
 func pinSeed(seed int32)                                 {}
 func setListeners(f func([]net.Listener) []net.Listener) {}
 func setReadWindow(n int)                                {}
+func setMinBlock(n int)                                  {}
 func relaxLandlock()                                     {}
 
 const hooksEnabled = false
